@@ -108,8 +108,14 @@ def main():
                     'the harness is vacuous')
             exit_code = 3
     if not mustfail and not a.only:
-        rep.say(f'CHECKER-ERROR property={prop}: no must-fail obligation was generated')
-        exit_code = 3
+        left_reach = [k for k in by if k.endswith(':in-subset') or k.endswith(':in-budget')]
+        if left_reach and not getattr(mod, 'PARTIAL', False):
+            # the task that carries the must-fail clause left the verifier's reach on this tree: undecided, not a checker defect
+            rep.say(f'UNDECIDED property={prop}: the must-fail clause was not reached because {left_reach[:3]} left the verifier\'s reach')
+            undecided.append('mustfail-not-reached')
+        else:
+            rep.say(f'CHECKER-ERROR property={prop}: no must-fail obligation was generated')
+            exit_code = 3
 
     # vacuity covers
     dead = [k for k, v in stats['covers'].items() if not v]
